@@ -94,7 +94,9 @@ def sep (px : K) (p q : Int × Int) : K :=
   Transc.sqrt (delta_x ^ (2 : Nat) + delta_y ^ (2 : Nat))
 
 /-- `cov_mat[i, j]` for the position list `pos` (stencil points, then the new row);
-`r32` is the `numpy.float32` rounding of the separation (`id` on the exact model) -/
+`r32` is a rounding hook applied to the separation before the covariance function: the pinned tree evaluated
+`phase_covariance` on `numpy.float32(r)`; the repaired code (4518b2c) uses `numpy.float64(r)`, so both the driver and the exact
+model instantiate it with the identity.  The theorems that mention it hold for every `r32`. -/
 def covMat (cov : K → K) (r32 : K → K) (px : K) (pos : Nat → Int × Int) (i j : Nat) : K :=
   cov (r32 (sep px (pos i) (pos j)))
 
